@@ -18,6 +18,7 @@ from ..core import Ctx
 from ..gen import corpus
 from ..gen import emit as E
 from ..gen.programs import Gen
+from ..instr import astfp
 from ..instr import clock as clk
 from ..instr import sched
 
@@ -30,7 +31,10 @@ RULE = (
     "failing loader} on two long-lived Environments, a shared (caching or plain) dict loader "
     "and a fixed set of stateful templates (counters, cycles, offset: continue, captures, "
     "macros, block overrides, translate, now/today/'now' | date, custom filters, globals) plus "
-    "grammar-generated and corpus templates; the clock advances between steps. distinct = hash "
+    "grammar-generated and corpus templates; the clock advances between steps. A sample of "
+    "histories has its last step re-executed by a brand-new interpreter (process-global state "
+    "cannot hide there), including loader-less environments configured one at a time; the node "
+    "tree of every shared Template is fingerprinted after each step. distinct = hash "
     "of the history; non-trivial = >= 2 steps share an object, or a fault, or a clock advance."
 )
 ASSUMPTIONS = [
@@ -79,6 +83,9 @@ TEMPLATES: dict[str, str] = {
     "capture": "{{ leftover }}{{ c }}{% capture c %}{{ v }}!{% endcapture %}{{ c }}{% assign leftover = v %}{{ leftover }}",
     "macro": "{% call m 1 %}{% macro m x %}[{{ x }}{{ v }}]{% endmacro %}{% call m 2 %}{% call later %}",
     "macro2": "{% macro later %}LATER{% endmacro %}{% call later %}{% call m 9 %}",
+    "macro3": "{% if formal %}{% macro greet name, greeting: 'Good day' %}{{ greeting }}, {{ name }}!{% endmacro %}{% else %}"
+              "{% macro greet name, greeting: 'Hi' %}{{ greeting }}, {{ name }}!{% endmacro %}{% endif %}{% call greet v %}"
+              "{% for i in xs %}{% call greet i %}{% endfor %}",
     "child": "{% extends 'base' %}{% block a %}child-a {{ block.super }}{% endblock %}stray",
     "child2": "{% extends 'base' %}{% block b %}child2-b {{ v }}{% endblock %}",
     "base": "<{% block a %}base-a{% endblock %}|{% block b %}base-b{% endblock %}>",
@@ -94,12 +101,12 @@ TEMPLATES: dict[str, str] = {
     "undefined": "{{ nosuch }}{{ v | default: 'd' }}{% if nosuch %}t{% else %}f{% endif %}{{ nosuch.deeper | size }}",
     "ifchanged": "{% for i in xs %}{% if forloop.first %}F{% endif %}{{ forloop.index }}{% endfor %}{% liquid\nassign z = v\necho z %}",
 }
-ROOTS = ["counters", "cycle", "offset", "capture", "macro", "macro2", "child", "child2", "now", "translate",
+ROOTS = ["counters", "cycle", "offset", "capture", "macro", "macro2", "macro3", "child", "child2", "now", "translate",
          "include", "render", "custom", "drop", "with", "undefined", "ifchanged"]
 
 
 def make_data(rng: random.Random) -> dict[str, Any]:
-    return {"v": rng.choice(["al", "bo", 7, "Ü"]), "xs": [1, 2, 3, 4][: rng.randint(0, 4)],
+    return {"v": rng.choice(["al", "bo", 7, "Ü"]), "xs": [1, 2, 3, 4][: rng.randint(0, 4)], "formal": rng.random() < 0.5,
             "d": {"a": rng.choice(["A", 1]), "b": {"c": "C"}, "list": [1, 2], "z": None}}
 
 
@@ -129,6 +136,7 @@ class World:
         self.loaders = {e: self._loader(self.fail_next_load) for e in "AB"}
         self.envs = {e: self._env(e, self.loaders[e]) for e in "AB"}
         self.tpls: dict[tuple[str, str], Any] = {}
+        self.fps: dict[int, Any] = {}
 
     def _loader(self, fail_flag: list[int]):  # noqa: ANN202
         from liquid2 import CachingDictLoader
@@ -341,6 +349,22 @@ def run_history(ctx: Ctx, sources: dict[str, str], hist: list[dict[str, Any]], c
                 ctx.count("clock_advances")
         if shared != fresh:
             return i, shared, fresh
+        # rendering must not write to the parsed template (state on AST nodes outlives the
+        # render): compare the structural fingerprint of the shared Template's node tree
+        # with the one taken when it was parsed
+        tk = (st.get("env", "A"), st.get("tpl", ""))
+        t_shared = w.tpls.get(tk)
+        if t_shared is not None and st["op"] in ("render", "render_async", "analyze", "reload"):
+            fp = astfp.fingerprint_nodes(t_shared)
+            base = w.fps.get(id(t_shared))
+            if base is None:
+                w.fps[id(t_shared)] = (t_shared, astfp.fingerprint_nodes(w.fresh_env(tk[0]).from_string(w.sources[tk[1]])))
+                base = w.fps[id(t_shared)]
+            if record:
+                ctx.count("template_fingerprint_checks")
+            d = astfp.diff(base[1], fp)
+            if d is not None:
+                return i, ("mutated", d), ("ok", "template unchanged", "astfp")
         # absolute clock oracle: module-level caches are shared by the "fresh" twin too,
         # so time-dependent values are also compared with the harness clock itself
         if st.get("tpl") == "now" and st["op"] in ("render", "render_async", "reload", "pkg_render", "pkg_parse") \
@@ -407,6 +431,12 @@ def check_history(ctx: Ctx, sources: dict[str, str], hist: list[dict[str, Any]],
     last = small[-1]
     tname = last.get("tpl", "") if origin == "fixtures" else origin
     same_env = all(s.get("env", "A") == last.get("env", "A") for s in small[:-1] if "env" in s) if len(small) > 1 else True
+    if len(fresh) == 3 and fresh[2] == "astfp":
+        ctx.violation(f"template-mutated-by-render:{astfp.mechanism(shared[1])}",
+                      f"after {_opname(hist[idx])} of '{hist[idx].get('tpl')}' the parsed template differs from a fresh parse: {shared[1]}",
+                      {"sources": {k: v for k, v in sources.items() if k in _used(small, sources)},
+                       "history": small, "caching": caching, "shared": list(shared), "fresh": list(fresh)})
+        return
     if len(fresh) == 3 and fresh[2] == "clock-oracle":
         got, want = shared[1].split("|"), fresh[1].split("|")
         fields = ["now|date", "today", "'now'|date:%s", "'today'|date:%Y%j", "'now'|date:%H%M%S"]
@@ -429,6 +459,137 @@ def _used(hist: list[dict[str, Any]], sources: dict[str, str]) -> set[str]:
         if any(f"'{n}'" in sources.get(u, "") for u in list(used) if u):
             used.add(n)
     return {u for u in used if u}
+
+
+# --------------------------------------------------------------------------- fresh process oracle
+
+NOLOADER_TEMPLATES = {
+    "late": "<late {{ v }}>",
+    "lay": "[{% block b %}lay{% endblock %}]",
+    "card": "({{ card }}{{ site }})",
+}
+NOLOADER_SOURCES = [
+    "{% include 'late' %}", "{% render 'late', v: v %}", "{% extends 'lay' %}{% block b %}kid{% endblock %}",
+    "{% include 'card' with v %}{{ site }}", "{{ v | shout }}", "{{ site }}{{ v }}", "{% render 'card' %}",
+]
+
+
+def noloader_env(actions: list[Any]):  # noqa: ANN201
+    """An Environment built WITHOUT a loader argument, configured by actions."""
+    from liquid2 import Environment
+
+    env = Environment()
+    for act in actions:
+        noloader_apply(env, act)
+    return env
+
+
+def noloader_apply(env, act) -> None:  # noqa: ANN001
+    act = tuple(act)
+    if act[0] == "template":
+        env.loader.templates[act[1]] = NOLOADER_TEMPLATES[act[1]]
+    else:
+        World._apply(env, act)
+
+
+def noloader_step(cfg: dict[str, list[Any]], step: dict[str, Any], fresh: bool, shared_envs: Any) -> tuple:
+    import liquid2
+
+    e = step.get("env", "A")
+    data = copy.deepcopy(step.get("data") or {})
+    if step["op"] == "pkg_render":
+        # the package-level functions use liquid2.DEFAULT_ENVIRONMENT (also loader-less)
+        return outcome(lambda: liquid2.render(step["src"], **data))
+    env = noloader_env(cfg[e]) if fresh else shared_envs[e]
+    if step["op"] == "render_async":
+        return outcome(lambda: sched.drive(env.from_string(step["src"]).render_async(**data)))
+    if step["op"] == "get_template":
+        return outcome(lambda: env.get_template(step["name"]).render(**data))
+    return outcome(lambda: env.from_string(step["src"]).render(**data))
+
+
+def xproc(req: dict[str, Any]) -> tuple:
+    """Outcome of one step computed by a brand-new interpreter."""
+    import json
+    import os
+    import subprocess
+    import sys
+
+    from ..core import VERIF_DIR
+    from ..core import from_tagged
+    from ..core import to_tagged
+
+    env = dict(os.environ)
+    env["PYTHONHASHSEED"] = "0"
+    p = subprocess.run([sys.executable, "-B", "-m", "vf.c09_xproc"], input=json.dumps(to_tagged(req)),
+                       capture_output=True, text=True, cwd=VERIF_DIR, env=env, timeout=120)
+    if p.returncode != 0:
+        raise RuntimeError(f"fresh-process oracle failed: {p.stderr[-400:]}")
+    return tuple(from_tagged(json.loads(p.stdout)))
+
+
+def xproc_history(ctx: Ctx, rng: random.Random) -> None:
+    c = clk.install()
+    c.t = 1_700_000_000.0
+    if rng.random() < 0.35:
+        # loader-less environments: configuring one must not configure another
+        cfg: dict[str, list[Any]] = {"A": [], "B": []}
+        shared = {e: noloader_env([]) for e in "AB"}
+        steps: list[dict[str, Any]] = []
+        last = None
+        shared_out = None
+        for j in range(rng.randint(2, 5)):
+            c.advance(rng.choice([0, 30, 86400]))
+            if rng.random() < 0.45 and j < 4:
+                e = rng.choice("AB")
+                act = rng.choice([("template", n) for n in NOLOADER_TEMPLATES] + [("global", "site", "S1"), ("filter", "shout", "shout")])
+                cfg[e].append(act)
+                noloader_apply(shared[e], act)
+                steps.append({"op": "configure", "env": e, "act": list(act)})
+                continue
+            st = {"op": rng.choice(["render", "render", "render_async", "pkg_render", "get_template"]), "env": rng.choice("AB"),
+                  "src": rng.choice(NOLOADER_SOURCES), "name": rng.choice(list(NOLOADER_TEMPLATES)), "data": make_data(rng)}
+            shared_out = noloader_step(cfg, st, fresh=False, shared_envs=shared)
+            last = st
+            steps.append(st)
+        if last is None:
+            return
+        fresh = xproc({"noloader": True, "cfg": cfg, "step": last, "clock": c.t})
+        ctx.ev(2)
+        ctx.count("fresh_process_comparisons")
+        ctx.count("fresh_process_comparisons_loaderless")
+        ctx.nt("xproc-noloader", repr(steps))
+        if tuple(shared_out) != tuple(fresh):
+            conf = [s for s in steps if s["op"] == "configure"]
+            other = any(s["env"] != last.get("env") for s in conf)
+            ctx.violation(
+                f"process-state-leak:loaderless-env:{last['op']}{':configured-on-another-environment' if other else ''}",
+                f"shared objects gave {shared_out!r}, a fresh interpreter gives {fresh!r}",
+                {"noloader": True, "steps": steps, "shared": list(shared_out), "fresh": list(fresh)})
+        return
+    hist = gen_history(rng, rng.randint(2, 6), ROOTS)
+    hist = [s for s in hist if "fault" not in s and s["op"] != "load_fault"] or hist[:1]
+    if hist[-1]["op"] == "configure" or "fault" in hist[-1] or hist[-1]["op"] == "load_fault":
+        hist.append({"op": "render", "env": rng.choice("AB"), "tpl": rng.choice(ROOTS), "data": make_data(rng), "advance": 3600})
+    caching = rng.random() < 0.5
+    w = World(TEMPLATES, caching)
+    out = None
+    for st in hist:
+        c.advance(st.get("advance", 0))
+        if st["op"] == "configure":
+            w.configure(st["env"], tuple(st["act"]))
+            continue
+        out = do_step(w, st, fresh=False)
+    last = hist[-1]
+    fresh = xproc({"sources": TEMPLATES, "caching": caching, "cfg": {e: [list(a) for a in acts] for e, acts in w.cfg.items()},
+                   "step": last, "clock": c.t})
+    ctx.ev(2)
+    ctx.count("fresh_process_comparisons")
+    ctx.nt("xproc", repr(hist), caching)
+    if tuple(out) != tuple(fresh):
+        ctx.violation(f"process-state-leak:{_opname(last)}:{last.get('tpl')}",
+                      f"after {len(hist) - 1} earlier steps the shared objects gave {out!r}, a fresh interpreter gives {fresh!r}",
+                      {"history": hist, "caching": caching, "shared": list(out), "fresh": list(fresh), "xproc": True})
 
 
 # --------------------------------------------------------------------------- faults sweep
@@ -495,6 +656,7 @@ def shards(tier: str, seed: int) -> list[dict[str, Any]]:
     specs += [{"kind": "faults", "i": i, "n": 2} for i in range(2)]
     specs += [{"kind": "genhist", "i": i, "n": 3, "per": 200 if tier == "quick" else 3000} for i in range(3)]
     specs += [{"kind": "conc", "i": i, "n": 3, "per": 40 if tier == "quick" else 500} for i in range(3)]
+    specs += [{"kind": "xproc", "i": i, "n": 4, "per": 45 if tier == "quick" else 600} for i in range(4)]
     return specs
 
 
@@ -502,7 +664,9 @@ def floors(tier: str) -> dict[str, int]:
     k = 1 if tier == "quick" else 15
     return {"steps_compared": 5000 * k, "faults_injected": 500 * k, "faults_that_aborted_a_render": 150 * k,
             "schedules_explored": 500 * k, "clock_advances": 1000 * k, "configure_steps": 200 * k,
-            "clock_selftest_ok": 1, "set:ops": 10, "clock_oracle_checks": 100 * k}
+            "clock_selftest_ok": 1, "set:ops": 10, "clock_oracle_checks": 100 * k,
+            "fresh_process_comparisons": 120 * k, "fresh_process_comparisons_loaderless": 30 * k,
+            "template_fingerprint_checks": 3000 * k}
 
 
 def run_shard(spec: dict[str, Any], ctx: Ctx) -> None:
@@ -540,12 +704,20 @@ def run_shard(spec: dict[str, Any], ctx: Ctx) -> None:
                              "how": rng.choice(["get_template", "from_string"]), "advance": rng.choice([0, 7])})
             check_history(ctx, sources, hist, rng.random() < 0.5, origin)
         ctx.sample({"origin": origin, "sources": sources, "history": [{k: v for k, v in s.items() if k != "data"} for s in hist]})
+    elif spec["kind"] == "xproc":
+        for _ in range(spec["per"]):
+            xproc_history(ctx, rng)
     else:
         for _ in range(spec["per"]):
             concurrent(ctx, rng)
 
 
 def replay(wit: dict[str, Any], ctx: Ctx) -> None:
+    if wit.get("noloader") or wit.get("xproc"):
+        print("replay C09 (fresh-process oracle): shared =", wit.get("shared"), " fresh interpreter =", wit.get("fresh"))
+        print("            steps =", wit.get("steps") or wit.get("history"))
+        ctx.violation("replayed", "see recorded outcomes (re-run the xproc shard to re-execute)", wit)
+        return
     sources = dict(TEMPLATES)
     sources.update(wit.get("sources") or {})
     hist = wit["history"]
